@@ -37,6 +37,9 @@ class Ctx:
 
     def run(self, tag, src, mode="", prop=None, **kw):
         """run one engine workload over all shards (or only the replayed case)"""
+        only_tags = os.environ.get("VERIF_TAGS")      # debugging aid: restrict a check to some builds
+        if only_tags and tag not in only_tags.split(","):
+            return
         ekw = {k: kw.pop(k) for k in ("name", "extra_cflags", "libs", "cc") if k in kw}
         exe = self.engine(tag, src, **ekw)
         if self.only_run is not None:
